@@ -248,11 +248,6 @@ func Explore(t *testing.T, sc *Scenario, r *rep.Report) {
 		if os.Getenv("VERIF_MEMDEBUG") != "" && schedules%2000 == 0 {
 			var ms runtime.MemStats
 			runtime.ReadMemStats(&ms)
-			if schedules == 2000 {
-				buf := make([]byte, 1<<20)
-				buf = buf[:runtime.Stack(buf, true)]
-				_ = os.WriteFile("/tmp/goroutines.txt", buf, 0o644)
-			}
 			fmt.Fprintf(os.Stderr, "memdebug %s schedules=%d goroutines=%d heap=%dMB stack-items=%d bp=%q\n", sc.Name, schedules, runtime.NumGoroutine(), ms.HeapAlloc>>20, len(stack), bp)
 		}
 		counted := true
